@@ -1,5 +1,6 @@
 import TomlVerif.Model.DeRoutes
 import TomlVerif.Model.Doc
+import TomlVerif.Model.DeText
 import TomlVerif.Driver.Canon
 /-! Driver modes `c13` and `c17` (same case lines as harness/src/c13.rs).
 Fields the model does not cover are answered `n/a` (typed targets, `val` cases, texts of trees holding floats). -/
@@ -80,41 +81,14 @@ partial def keyOrder : TV → String
     if l.any (fun v => v.isTable || v.isArray) then "[" ++ ",".intercalate (l.map keyOrder) ++ "]" else ""
   | _ => ""
 
-/-! what `toml_edit`'s deserializers show for a parsed tree (`presEdit` on the `toml_edit` items themselves) -/
-partial def presOfVal : Val → Pres
-  | .str s => .string s
-  | .int n => .i64 n
-  | .float b => .f64 b
-  | .bool b => .bool b
-  | .dt d => dtMap d
-  | .arr l => .seq (l.map presOfVal)
-  | .inl items _ _ => .map (items.map fun (k, v) => (k, presOfVal v))
-mutual
-partial def presOfItem : Item → Pres
-  | .value v => presOfVal v
-  | .table t => presOfTbl t
-  | .aot ts => .seq (ts.map presOfTbl)
-partial def presOfTbl : Tbl → Pres
-  | .mk items _ _ _ => .map (items.map fun (k, v) => (k, presOfItem v))
-end
-
-def noFloat : FloatText := fun _ => []
+/-! what `toml_edit`'s deserializers show for a parsed tree, `noFloat`, `decodeValue`, `decodeTable`: the total
+    definitions of `Model/DeText.lean`, which `Props/C17RoundTrip.lean` is about -/
+export TomlVerif.Model.DeText (presOfVal presOfItem presOfTbl noFloat decodeValue decodeTable)
 
 def showSer : Except SerError Bytes → String
   | .ok _ => "ok"
   | .error .unsupportedType => "err:UnsupportedType"
   | .error .custom => "err:Custom"
-
-/-- decode a text the way `toml::from_str::<toml::Value>` does -/
-def decodeValue (fl : Flavour) (text : Bytes) : Option TV :=
-  match Doc.parseDocument text with
-  | some t => visitValue fl false (presOfTbl t)
-  | none => none
-
-def decodeTable (fl : Flavour) (text : Bytes) : Option (List (Bytes × TV)) :=
-  match Doc.parseDocument text with
-  | some t => visitTable fl false (presOfTbl t)
-  | none => none
 
 def bit (b : Bool) : String := if b then "1" else "0"
 
